@@ -19,13 +19,19 @@
   flag is set in the table (literals that shape the computation, every `*_quantizer`, every
   activation, the QConv2D mask); initializers, regularizers, constraints, `*_range`, dropout,
   momentum and the folded-batchnorm renorm options are NOT covered (not read at inference).
-  `C13_dropped_read_args` shows the only read argument that `get_config` drops is
-  QAdaptiveActivation.relu_upper_bound.
+  `C13_dropped_read_args` shows that `get_config` drops NO read argument of any layer class.
 
-  The code violates the property in three ways, each pinned by a `_counterexample` theorem:
-  quantizer options that get_config drops (C09/F4), quantized_hswish whose config cannot be
-  loaded, QAdaptiveActivation.relu_upper_bound, and quantized_linear / quantized_hswish missing
-  from the custom-object table (QActivation cannot be reloaded with them).
+  History.  The tree this check was first built on violated the property in four ways, each of
+  which was pinned by a `_counterexample` theorem: quantizer options that get_config dropped
+  (C09/F4), quantized_hswish whose config could not be loaded, QAdaptiveActivation.relu_upper_bound,
+  and quantized_linear / quantized_hswish missing from the custom-object table (QActivation could
+  not be reloaded with them).  The fix round (notes/C13.md) repaired all four in the library; the
+  tables mirror the repaired code, the statements that excluded the defective classes are now
+  unconditional (`C13_quantizers_closed`, `C13_table_complete`, `C13_quantizer_options_emitted`,
+  `C13_dropped_read_args`) and the former counterexamples are regression witnesses
+  (`C13_*_fixed_witness`) evaluated at the old failing inputs.  Still recorded, not in this model
+  (state, not configuration): QAdaptiveActivation quantizes with the integer bits assigned by the
+  previous call (known/C13.json).
 -/
 import QKV.Lemmas.LayerConfig
 import QKV.Model.LayerConfigTables
@@ -63,54 +69,87 @@ theorem C13_quantizer_dropped_default (s : QSpec) (q : QObj)
     (fun p => if p.1 ∈ s.emits then qAttr s q p.1 else p.2) p hp hnd
   simpa [he] using this
 
-/-- the real table: every quantizer class except quantized_hswish is closed … -/
-theorem C13_quantizers_closed_partial :
-    ∀ s ∈ qSpecs, s.name ≠ "quantized_hswish" → ∀ k ∈ s.emits, s.hasParam k = true := by
-  decide
+/-- the real table: every quantizer class is closed — every key its `get_config` emits is a
+    parameter of its constructor (since the fix round also quantized_hswish), so
+    `C13_quantizer_roundtrip` applies to all 14 classes … -/
+theorem C13_quantizers_closed : ∀ s ∈ qSpecs, s.Closed := by
+  have h : ∀ s ∈ qSpecs, ∀ k ∈ s.emits, s.hasParam k = true := by decide
+  exact h
 
 /-- … and has distinct parameter names -/
 theorem C13_quantizer_params_nodup : ∀ s ∈ qSpecs, (s.params.map Prod.fst).Nodup := by
   decide
 
-/-- quantized_hswish emits `keep_negative` / `post_training_scale`, which its constructor does not
-    accept: `from_config (get_config q)` raises TypeError for EVERY instance. -/
-theorem C13_hswish_from_config_counterexample (q : QObj) :
-    qFromConfig qs_quantized_hswish (qGetConfig qs_quantized_hswish q) = .error .typeError :=
-  qFromConfig_getConfig_error qs_quantized_hswish q "keep_negative" (by decide) (by decide)
+/-- quantized_hswish used to emit `keep_negative` / `post_training_scale`, which its constructor
+    does not accept (TypeError for EVERY instance).  Regression witness: now
+    `from_config (get_config q)` succeeds for EVERY instance, and the default instance comes back
+    unchanged. -/
+theorem C13_hswish_from_config_fixed_witness :
+    (∀ q : QObj, qFromConfig qs_quantized_hswish (qGetConfig qs_quantized_hswish q) =
+        .ok (qReloaded qs_quantized_hswish q)) ∧
+      qFromConfig qs_quantized_hswish
+          (qGetConfig qs_quantized_hswish ⟨"quantized_hswish", qs_quantized_hswish.params⟩) =
+        .ok ⟨"quantized_hswish", qs_quantized_hswish.params⟩ :=
+  ⟨fun q => qFromConfig_getConfig qs_quantized_hswish q
+      (C13_quantizers_closed qs_quantized_hswish (by simp [qSpecs])), rfl⟩
 
-/-- the (class, option) pairs that get_config drops (F4) — the complete list for the real table -/
+/-- the (class, option) pairs that get_config drops — the complete list for the real table -/
 def droppedOptions : List (String × String) :=
   qSpecs.flatMap fun s => (s.params.filter fun p => !s.emits.contains p.1).map fun p => (s.name, p.1)
 
+/-- after the fix round: only `var_name` / `use_variables` of the six classes that take them
+    (they name the quantizer's `tf.Variable`s resp. decide whether its state lives in variables;
+    neither changes an inference result) -/
 theorem C13_dropped_options_list :
     droppedOptions =
-      [("quantized_bits", "scale_axis"), ("quantized_bits", "var_name"), ("quantized_bits", "use_ste"),
-       ("quantized_bits", "use_variables"), ("quantized_bits", "elements_per_scale"),
-       ("quantized_bits", "min_po2_exponent"), ("quantized_bits", "max_po2_exponent"),
-       ("bernoulli", "temperature"), ("bernoulli", "use_real_sigmoid"),
-       ("binary", "scale_axis"), ("binary", "elements_per_scale"), ("binary", "min_po2_exponent"),
-       ("binary", "max_po2_exponent"),
-       ("quantized_relu", "is_quantized_clip"), ("quantized_relu", "var_name"),
-       ("quantized_relu", "use_ste"), ("quantized_relu", "use_variables"),
-       ("quantized_po2", "var_name"), ("quantized_po2", "use_ste"), ("quantized_po2", "use_variables"),
-       ("quantized_relu_po2", "var_name"), ("quantized_relu_po2", "use_ste"),
-       ("quantized_relu_po2", "use_variables"),
-       ("quantized_linear", "scale_axis"), ("quantized_linear", "var_name"),
-       ("quantized_linear", "use_variables"),
-       ("quantized_hswish", "scale_axis"), ("quantized_hswish", "var_name"),
-       ("quantized_hswish", "use_variables")] := by
+      [("quantized_bits", "var_name"), ("quantized_bits", "use_variables"),
+       ("quantized_relu", "var_name"), ("quantized_relu", "use_variables"),
+       ("quantized_po2", "var_name"), ("quantized_po2", "use_variables"),
+       ("quantized_relu_po2", "var_name"), ("quantized_relu_po2", "use_variables"),
+       ("quantized_linear", "var_name"), ("quantized_linear", "use_variables"),
+       ("quantized_hswish", "var_name"), ("quantized_hswish", "use_variables")] := by
   decide
 
-/-- a default quantized_bits with `scale_axis = 0` -/
-def qbitsScaleAxis : QObj :=
-  ⟨"quantized_bits", qs_quantized_bits.params.map fun p =>
-    if p.1 == "scale_axis" then (p.1, .num 0) else p⟩
+/-- every other constructor option of every quantizer class is emitted by `get_config` — with
+    `C13_quantizer_emitted_kept`: it survives `from_config (get_config q)` for every instance -/
+theorem C13_quantizer_options_emitted :
+    ∀ s ∈ qSpecs, ∀ p ∈ s.params, p.1 ≠ "var_name" → p.1 ≠ "use_variables" → p.1 ∈ s.emits := by
+  decide
 
-/-- dropped option, concretely: quantized_bits(scale_axis=0) comes back with scale_axis=None -/
-theorem C13_dropped_option_counterexample :
-    (qReloaded qs_quantized_bits qbitsScaleAxis).args.lookup "scale_axis" = some .none ∧
+/-- `q` with option `k` set to `v` (all other options at their defaults) -/
+def withOption (s : QSpec) (kvs : List (String × PyVal)) : QObj :=
+  ⟨s.name, s.params.map fun p => (p.1, (kvs.lookup p.1).getD p.2)⟩
+
+/-- a default quantized_bits with `scale_axis = 0` -/
+def qbitsScaleAxis : QObj := withOption qs_quantized_bits [("scale_axis", .num 0)]
+
+/-- the formerly dropped option, concretely: quantized_bits(scale_axis=0) used to come back with
+    scale_axis=None; it now comes back unchanged -/
+theorem C13_dropped_option_fixed_witness :
+    qFromConfig qs_quantized_bits (qGetConfig qs_quantized_bits qbitsScaleAxis) = .ok qbitsScaleAxis ∧
       qbitsScaleAxis.args.lookup "scale_axis" = some (.num 0) := by
   constructor <;> rfl
+
+/-- … and so do the other recorded (class, option) instances of known/C13.json: the po2 exponent
+    bounds of quantized_bits, a list-valued scale_axis / elements_per_scale, quantized_linear and
+    binary scale_axis, quantized_relu is_quantized_clip -/
+theorem C13_dropped_options_fixed_witness :
+    (let q := withOption qs_quantized_bits
+        [("alpha", .str "auto_po2"), ("min_po2_exponent", .num (-1)), ("max_po2_exponent", .num 0)]
+     qFromConfig qs_quantized_bits (qGetConfig qs_quantized_bits q) = .ok q) ∧
+    (let q := withOption qs_quantized_bits
+        [("alpha", .str "auto_po2"), ("scale_axis", .list [.num 0, .num 1]),
+         ("elements_per_scale", .list [.num 2, .num 3])]
+     qFromConfig qs_quantized_bits (qGetConfig qs_quantized_bits q) = .ok q) ∧
+    (let q := withOption qs_quantized_linear [("alpha", .str "auto"), ("scale_axis", .num 0)]
+     qFromConfig qs_quantized_linear (qGetConfig qs_quantized_linear q) = .ok q) ∧
+    (let q := withOption qs_binary [("alpha", .str "auto"), ("scale_axis", .num 0)]
+     qFromConfig qs_binary (qGetConfig qs_binary q) = .ok q) ∧
+    (let q := withOption qs_quantized_relu
+        [("bits", .num 4), ("integer", .num 1), ("is_quantized_clip", .bool false),
+         ("relu_upper_bound", .num (13 / 10))]
+     qFromConfig qs_quantized_relu (qGetConfig qs_quantized_relu q) = .ok q) := by
+  refine ⟨?_, ?_, ?_, ?_, ?_⟩ <;> rfl
 
 /-! ## Clip and QInitializer wrappers -/
 
@@ -154,8 +193,9 @@ theorem C13_table_wellformed :
 def droppedReadArgs : List (String × String) :=
   lSpecs.flatMap fun s => (s.params.filter fun p => p.read && !p.emitted).map fun p => (s.name, p.name)
 
-/-- exactly one: QAdaptiveActivation.relu_upper_bound -/
-theorem C13_dropped_read_args : droppedReadArgs = [("QAdaptiveActivation", "relu_upper_bound")] := by
+/-- none (QAdaptiveActivation.relu_upper_bound used to be the one exception): the
+    `droppedDefault` hypothesis of `LayerOK` is vacuous for every class of the real table -/
+theorem C13_dropped_read_args : droppedReadArgs = [] := by
   decide
 
 /-- all constructor arguments that `get_config` drops although the constructor accepts them -/
@@ -164,7 +204,7 @@ def droppedArgs : List (String × String) :=
 
 theorem C13_dropped_args_list :
     droppedArgs =
-      [("QAdaptiveActivation", "relu_upper_bound"), ("QBatchNormalization", "activation"),
+      [("QBatchNormalization", "activation"),
        ("QConv2DBatchnorm", "renorm"), ("QConv2DBatchnorm", "renorm_clipping"),
        ("QConv2DBatchnorm", "renorm_momentum"), ("QConv2DBatchnorm", "fused"),
        ("QConv2DBatchnorm", "virtual_batch_size"), ("QConv2DBatchnorm", "adjustment"),
@@ -230,18 +270,15 @@ theorem C13_model_roundtrip_predict_partial {W V : Type} [Inhabited V] (E : Env)
 def libraryClassNames : List String :=
   lSpecs.map (·.name) ++ qSpecs.map (·.name) ++ ["Clip", "QInitializer", "QBidirectional"]
 
-/-- table completeness, as far as it holds: every library class except the two quantizers below
-    is a key of `_add_supported_quantized_objects` -/
-theorem C13_table_complete_partial :
-    ∀ c ∈ libraryClassNames, c ≠ "quantized_linear" → c ≠ "quantized_hswish" →
-      customObjects.contains c = true := by
+/-- table completeness: EVERY library class a layer config can name is a key of
+    `_add_supported_quantized_objects` (quantized_linear / quantized_hswish used to be missing) -/
+theorem C13_table_complete : ∀ c ∈ libraryClassNames, customObjects.contains c = true := by
   decide
 
-/-- quantized_linear and quantized_hswish are library classes that a config can name, and they
-    are not in the table -/
-theorem C13_table_missing_counterexample :
-    ("quantized_linear" ∈ libraryClassNames ∧ customObjects.contains "quantized_linear" = false) ∧
-    ("quantized_hswish" ∈ libraryClassNames ∧ customObjects.contains "quantized_hswish" = false) := by
+/-- regression witness for the two formerly missing keys -/
+theorem C13_table_missing_fixed_witness :
+    ("quantized_linear" ∈ libraryClassNames ∧ customObjects.contains "quantized_linear" = true) ∧
+    ("quantized_hswish" ∈ libraryClassNames ∧ customObjects.contains "quantized_hswish" = true) := by
   decide
 
 /-- every key of the table is a library class the model knows (nothing unmodelled in the table) -/
@@ -252,11 +289,19 @@ theorem C13_table_keys_modelled : ∀ c ∈ customObjects, c ∈ libraryClassNam
 def qactLinear : Layer :=
   ⟨"QActivation", [("name", .str "act")], [("activation", .act (.obj ⟨"quantized_linear", qs_quantized_linear.params⟩))]⟩
 
-/-- consequence on the routes: the activation dict of `QActivation(quantized_linear())` is
-    resolved through the table and is not found — all three routes raise -/
-theorem C13_qactivation_linear_counterexample (cb : QVal → PyVal) :
-    modelFromConfig (env cb) (modelGetConfig (env cb) [⟨.q qactLinear, [0]⟩]) = .error .unknownObject := by
-  rfl
+/-- `QActivation(quantized_hswish())` -/
+def qactHswish : Layer :=
+  ⟨"QActivation", [("name", .str "act")], [("activation", .act (.obj ⟨"quantized_hswish", qs_quantized_hswish.params⟩))]⟩
+
+/-- consequence on the routes: the activation dict of `QActivation(quantized_linear())` /
+    `QActivation(quantized_hswish())` is resolved through the table; all three routes used to
+    raise (`unknownObject`), they now rebuild the very same model -/
+theorem C13_qactivation_linear_fixed_witness (cb : QVal → PyVal) :
+    modelFromConfig (env cb) (modelGetConfig (env cb) [⟨.q qactLinear, [0]⟩]) =
+        .ok [⟨.q qactLinear, [0]⟩] ∧
+      modelFromConfig (env cb) (modelGetConfig (env cb) [⟨.q qactHswish, [0]⟩]) =
+        .ok [⟨.q qactHswish, [0]⟩] := by
+  constructor <;> rfl
 
 /-- in a `*_quantizer` / layer-activation slot the same class IS resolved (quantizers.py globals):
     `get_quantizer` does not use the table -/
@@ -264,7 +309,7 @@ example (cb : QVal → PyVal) :
     ∃ v, deserQ (env cb) (env cb).quantizerGlobals
       (serQ (env cb) (.obj ⟨"quantized_linear", qs_quantized_linear.params⟩)) = .ok v := by
   exact ⟨_, deserQ_serQ_obj (env cb) _ _ qs_quantized_linear (by rfl)
-    (C13_quantizers_closed_partial qs_quantized_linear (by simp [qSpecs]) (by decide)) (by rfl)⟩
+    (C13_quantizers_closed qs_quantized_linear (by simp [qSpecs])) (by rfl)⟩
 
 /-! ## QAdaptiveActivation.relu_upper_bound -/
 
@@ -277,13 +322,15 @@ def adaptiveRelu : Layer :=
      else if p.name == "relu_upper_bound" then (p.name, .lit (.num (1/2)))
      else (p.name, p.default)⟩
 
-/-- the reloaded layer has relu_upper_bound = None: a read argument changed -/
-theorem C13_adaptive_relu_upper_bound_counterexample (cb : QVal → PyVal) :
+/-- the reloaded layer used to have relu_upper_bound = None (a read argument changed); it now
+    keeps 1/2, and the whole read set is unchanged -/
+theorem C13_adaptive_relu_upper_bound_fixed_witness (cb : QVal → PyVal) :
     ∃ L', layerFromConfig (env cb) ls_QAdaptiveActivation
         (layerGetConfig (env cb) ls_QAdaptiveActivation adaptiveRelu) = .ok L' ∧
-      L'.args.lookup "relu_upper_bound" = some (.lit .none) ∧
-      adaptiveRelu.args.lookup "relu_upper_bound" = some (.lit (.num (1/2))) := by
-  refine ⟨_, rfl, ?_, ?_⟩ <;> rfl
+      L'.args.lookup "relu_upper_bound" = some (.lit (.num (1/2))) ∧
+      adaptiveRelu.args.lookup "relu_upper_bound" = some (.lit (.num (1/2))) ∧
+      readArgs ls_QAdaptiveActivation L' = readArgs ls_QAdaptiveActivation adaptiveRelu := by
+  refine ⟨_, rfl, ?_, ?_, ?_⟩ <;> rfl
 
 /-! ## non-vacuity: a concrete QDense satisfies `LayerOK` -/
 
